@@ -70,6 +70,21 @@ func famResults(depth int) SeqModel {
 		Extras: []string{"results", "badid", "set_epic"}, ViewMode: "graph"}
 }
 
+// crafted stores (3 tasks, 2 epics, every state/claim/membership/dependency
+// combination) x read-ish and whole-store commands
+func famCraft(n int, cmds ...string) SeqModel {
+	return SeqModel{Name: "crafted", MaxTasks: 4, MaxEpics: 3, Depth: 1,
+		Agents: []string{"a2"}, CmdNames: cmds,
+		StateArgs: []string{}, ClaimArgs: []string{}, Extras: []string{"claim_epic"}, ViewMode: "log",
+		CraftN: n, CraftTasks: 3, CraftEpics: 2}
+}
+
+func famLegacy(n int, cmds ...string) SeqModel {
+	m := famCraft(n, cmds...)
+	m.Name, m.CraftLegacy = "legacy", true
+	return m
+}
+
 func init() {
 	registry["C06"] = func() Check {
 		return &SeqCheck{Prop: "C06",
@@ -87,12 +102,14 @@ func init() {
 		return &SeqCheck{Prop: "C08",
 			Ideal: famReady(3, 2, 5), IdealDeep: famReady(3, 2, 7), IdealProps: []string{"P_C08"}, IdealInvs: []string{"CodeReadyIsSpecReady"},
 			GenQuick: famReady(2, 2, 4), GenThorough: famReady(3, 2, 6), SampleQuick: 120,
+			CraftQuick: famCraft(1200, "claim", "list_ready"), CraftThorough: famCraft(40000, "claim", "list_ready"),
 			Sim: famReady(4, 2, 14), SimNumQuick: 60, SimNumThorough: 2000}
 	}
 	registry["C09"] = func() Check {
 		return &SeqCheck{Prop: "C09",
 			Ideal: famIds(2, 1, 5), IdealDeep: famIds(3, 1, 6), IdealProps: []string{"P_C09"}, IdealInvs: []string{"CodePruneIsSpecPrune"},
 			GenQuick: famIds(2, 1, 4), GenThorough: famIds(2, 1, 6), SampleQuick: 100,
+			CraftQuick: famCraft(1200, "prune", "prune_dry"), CraftThorough: famCraft(40000, "prune", "prune_dry"),
 			Sim: famIds(3, 2, 12), SimNumQuick: 60, SimNumThorough: 2000}
 	}
 	registry["C10"] = func() Check {
@@ -135,6 +152,10 @@ func init() {
 		return &SeqCheck{Prop: "C05",
 			Ideal: famCompact(5), IdealDeep: famCompact(7), IdealProps: []string{"P_C05"},
 			GenQuick: famCompact(4), GenThorough: famCompact(6), SampleQuick: 150,
+			// (random crafted stores are NOT used here: C05 quantifies over histories ergo can
+			// produce plus legacy logs; a hand-made "canceled but claimed" item does lose its
+			// claim in compaction, which is outside the property)
+			Craft2Quick: famLegacy(300, "compact"), Craft2Thorough: famLegacy(5000, "compact"),
 			Sim: with(famFull(12), func(m *SeqModel) { m.MaxTasks = 3; m.ViewMode = "timed" }), SimNumQuick: 60, SimNumThorough: 2000}
 	}
 	registry["C12"] = func() Check {
